@@ -541,7 +541,9 @@ func c15RacePass(c *explore.Ctx) {
 		}
 	}
 	if n, _ := sum["stop_did_not_return"].(float64); n > 0 {
-		c.Violate("stop", "free-running:stop-did-not-return", map[string]any{"pass": "free-running race detector", "rounds": rounds}, "Stop returns", fmt.Sprintf("%v of %d rounds", n, rounds))
+		// a wall-clock observation (20 s) of a free-running, race-instrumented broker on a machine
+		// that may be loaded: recorded, not judged - "Stop returns" is decided by the schedule search
+		c.Note("free-running pass: Stop had not returned after 20 s of wall-clock time in %v of %d rounds (not judged)", n, rounds)
 	}
 	sum["race_reports"] = reports
 	c.Extra["race_pass"] = sum
